@@ -76,9 +76,10 @@ def model_args_dyn(model, meta):
         if t == "uint256":
             out.append(vals.get((i, None, "uint256"), 0))
             continue
-        n = vals.get((i, None, "length"))
-        if n is None:
-            return None
+        # (a length the model does not mention is a "don't care" of the solver: the counterexample claims to fail whatever it is)
+        n = vals.get((i, None, "length"), 0)
+        if n > 4096:
+            return None  # an absurd length cannot be laid out; counted by the caller
         if t == "uint256[]":
             out.append([vals.get((i, str(k), "uint256"), 0) for k in range(n)])
         else:
@@ -113,7 +114,7 @@ def explore(chk: Check, tier: str, want: str):
                 raise MachineryError(f"run_contract raised {out.exception}")
             runs.append((contract, metas, cli, out))
         # dynamic parameters: the failure needs one of the configured length candidates and particular contents
-        for cfg in range(len(testgen.DYN_CONFIGS)) if tier != "quick" else [chk.seed % 5, (chk.seed + 2) % 5, 2]:
+        for cfg in range(len(testgen.DYN_CONFIGS)) if tier != "quick" else [chk.seed % 5, 3, 2]:  # (3: a single length candidate per parameter)
             contract, metas, cli = testgen.gen_dynamic_contract(rnd, cfg)
             out = run_contract(contract, cli=cli)
             if out.exception:
@@ -121,6 +122,12 @@ def explore(chk: Check, tier: str, want: str):
             runs.append((contract, metas, cli, out))
         # an immutable variable: the code the constructor returns differs from the runtime code of the artifact
         contract, metas = testgen.gen_immutable_contract(rnd)
+        out = run_contract(contract)
+        if out.exception:
+            raise MachineryError(f"run_contract raised {out.exception}")
+        runs.append((contract, metas, (), out))
+        # a function-level annotation (other Panic codes for one test) followed by a test without annotation
+        contract, metas = testgen.gen_annotated_contract(rnd)
         out = run_contract(contract)
         if out.exception:
             raise MachineryError(f"run_contract raised {out.exception}")
